@@ -550,3 +550,60 @@ func (c *Ctx) handshakeFormulas(rule string, only map[string]bool) {
 		c.compareTerm(rule, "formula:rsa_payload", pos, got, want, "data_with_hash handed to RSA")
 	}
 }
+
+// tempKeyPlaintext: what EncryptMessageWithTempKeys hands to the cipher is SHA1(payload) ++ payload ++ padding - the
+// digest covers the payload and nothing else (a digest taken after the padding was appended matches no cut point a
+// conformant peer tries, and the client's own decrypt then returns payload + padding).  Checked on the extracted
+// term of the plaintext: it contains SHA-1 digests, and every one of them is sha1($msg) exactly.
+func (c *Ctx) tempKeyPlaintext(rule string) {
+	f := c.fn(rule, load.IgePkg, "", "EncryptMessageWithTempKeys")
+	if f == nil {
+		return
+	}
+	name := load.IgePkg + ".encryptMessageWithTempKeys"
+	e := c.termEval([]string{"msg", "new_nonce", "server_nonce"}, nil)
+	e.WatchCalls[name] = true
+	e.Eval(f)
+	var plain *an.T
+	pos := c.pos(f.Pos())
+	n := 0
+	for _, sc := range e.Seen {
+		if sc.Name == name && len(sc.Args) >= 1 {
+			plain, pos = sc.Args[0], c.pos(sc.Pos)
+			n++
+		}
+	}
+	if n != 1 || plain == nil {
+		c.R.Undecide(rule, "tempkeys:digest-covers-the-payload", pos, sprintf("expected one call of encryptMessageWithTempKeys in EncryptMessageWithTempKeys, found %d", n))
+		return
+	}
+	// (calls the evaluator does not interpret - bytes.Join - keep their arguments as text: scan the printed term)
+	var digests []string
+	txt := plain.String()
+	for i := 0; i+5 <= len(txt); i++ {
+		if txt[i:i+5] != "sha1(" || (i > 0 && (txt[i-1] >= 'a' && txt[i-1] <= 'z' || txt[i-1] >= '0' && txt[i-1] <= '9')) {
+			continue
+		}
+		depth, j := 0, i+4
+		for ; j < len(txt); j++ {
+			if txt[j] == '(' {
+				depth++
+			} else if txt[j] == ')' {
+				depth--
+				if depth == 0 {
+					break
+				}
+			}
+		}
+		if j < len(txt) {
+			digests = append(digests, txt[i:j+1])
+		}
+	}
+	bad := ""
+	for _, d := range digests {
+		if d != "sha1($msg)" {
+			bad = d
+		}
+	}
+	c.R.Check(len(digests) > 0 && bad == "", rule, "tempkeys:digest-covers-the-payload", pos, sprintf("%d SHA-1 digest(s) in the plaintext handed to the cipher; %s", len(digests), clip(bad, 160)))
+}
